@@ -170,6 +170,12 @@ func (e *Exec) execLedgerExt(op string, pos []string, kv map[string]string, line
 		return e.opLRace(pos, kv, line)
 	case "lraced":
 		return e.opLRaced(pos)
+	case "ftruncate":
+		return e.opFTruncate(pos, kv)
+	case "tips":
+		return e.opTips(pos, kv, line)
+	case "dumpf":
+		return e.opDumpF(kv, line)
 	}
 	return "bad-op"
 }
